@@ -14,12 +14,14 @@ var weekSteps = []int{0, 1, -1, 2, -2, 5, -5, 53, -53}
 
 func init() {
 	register(&Check{
-		ID:   "C15",
-		Rule: "every civil day in the year set (thorough: all days 1..9998) x first weekday 0..6: week first day, 7 consecutive days, in-month days, index in month and year, Next(n,false) and Next(n,true) for the step alphabet (and back), compared with integer day-number arithmetic; every month x start: GetWeeks against the distinct weeks meeting the month and GetWeeksOfMonth; every month/season/half-year/year: members, index, Next. non-trivial = weeks that span two months or the 1582 switch, and month-separated steps that change month",
+		ID:     "C15",
+		Rule:   "every civil day in the year set (thorough: all days 1..9998) x first weekday 0..6: week first day, 7 consecutive days, in-month days, index in month and year, Next(n,false) and Next(n,true) for the step alphabet (and back), compared with integer day-number arithmetic; every month x start: GetWeeks against the distinct weeks meeting the month and GetWeeksOfMonth; every month/season/half-year/year: members, index, Next. non-trivial = weeks that span two months or the 1582 switch, and month-separated steps that change month",
 		Assume: []string{"R1 weekday and month lengths", "a month-separated week position is (year, month, index); a week spanning two months occupies the last position of the first month and the first of the next, as the property words it"},
 		Shards: func(tier string, seed int64) []Shard { return yearShards(tier, seed, 9998, "") },
 		Run:    runC15,
-		Bounds: func(tier string) map[string]interface{} { return map[string]interface{}{"week_steps": weekSteps, "starts": "0..6"} },
+		Bounds: func(tier string) map[string]interface{} {
+			return map[string]interface{}{"week_steps": weekSteps, "starts": "0..6"}
+		},
 		MinNontrivial: 100,
 	})
 }
